@@ -25,6 +25,9 @@ ASSUMPTIONS = [
 def run(ctx, rep):
     rep.run(RI.rule_coverage, ctx, rep, "S1", min_sites=10)
     rep.run(RI.rule_parallel_lists, ctx, rep, "S1")
+    rep.run(RI.rule_whole_replacement, ctx, rep, "S1")
+    rep.run(RI.rule_no_carry_over, ctx, rep, "S1")
+    rep.run(RI.rule_typenames_are_keys, ctx, rep, "S3")
     rep.run(RI.rule_depth, ctx, rep, "S2")
     rep.run(RI.rule_whole_identifier, ctx, rep, "S3", exclude={"instantiate_name"})   # naming: C08/N5
     rep.run(RI.rule_qualifier_forwarding, ctx, rep, "S4", min_sites=3)
